@@ -821,18 +821,14 @@ Proof.
   rewrite gb_lring by lia. unfold Uof. apply gb_ring; auto; lia.
 Qed.
 
-Lemma readfree_handover s : readfree (http_handover s).
+Lemma readfree_handover cap s : readfree (http_handover cap s).
 Proof.
   unfold http_handover. cbv zeta.
-  assert (F : forall a b data, readfree (mark_if (0 <? b) 3 (flush_queue (h_queue s)
-     (PUp data (-1) (PDone {| h_state := HT_CONNECTED; h_base := h_base s; h_queue := []; h_buf := h_buf s; h_pos := a; h_fill := b; h_cl := h_cl s |} 1))))).
-  { intros. unfold mark_if. destruct (0 <? b); [constructor|]; apply readfree_flush; repeat constructor. }
   destruct (0 <? h_fill s); [|apply readfree_flush; constructor].
-  destruct (_ <? _).
-  - destruct (mreadn _ _ _); [|constructor]. destruct (mreadn _ _ _); [|constructor]. apply F.
-  - destruct (mreadn _ _ _); [|constructor]. apply F.
+  destruct (ring_pop cap s) as [[[data pos'] fill']|]; [|constructor].
+  apply readfree_flush; repeat constructor.
 Qed.
-Lemma readfree_parse : forall fuel s, readfree (http_parse fuel s).
+Lemma readfree_parse cap : forall fuel s, readfree (http_parse cap fuel s).
 Proof.
   induction fuel as [|f IH]; intros s; simpl; [constructor|]. cbv zeta.
   destruct (_ =? HT_INIT).
@@ -842,7 +838,7 @@ Proof.
     assert (X : readfree match r with
        | PrFault => PFault | PrNeed => PDone (with_ring s HT_HEADERS (h_pos s) (h_fill s) c) 0
        | PrErr => http_error (with_ring s HT_HEADERS (h_pos s) (h_fill s) c)
-       | PrOk n => http_parse f (with_ring s (if n =? 2 then HT_BODY else HT_HEADERS) ((h_pos s + n) mod lenZ (h_buf s)) (h_fill s - n) c) end).
+       | PrOk n => http_parse cap f (with_ring s (if n =? 2 then HT_BODY else HT_HEADERS) ((h_pos s + n) mod lenZ (h_buf s)) (h_fill s - n) c) end).
     { destruct r; auto; constructor. }
     destruct st; [constructor|]; exact X. }
   destruct (_ =? HT_BODY).
@@ -853,82 +849,85 @@ Qed.
 Lemma vis_map_dn q : vis vis_str (map Dn q) = map ODn q.
 Proof. induction q; simpl; auto. unfold vis in *. simpl. rewrite IHq. reflexivity. Qed.
 
-Lemma exec_mark_unclean {S} n (p : prog S) kb o k e : exec (PMark n p) kb = (o, k, e) -> clean e = false.
-Proof. simpl. destruct (exec p kb) as [[o' k'] e']. intros E; inversion E; subst. reflexivity. Qed.
-
-(* the hand-over at the end of the handshake: everything that is in the ring, as far as the caller's buffer
-   goes; what does not fit stays behind for good (tagged) *)
-Lemma handover_exec s kb o k e : hring s -> exec (http_handover s) kb = (o, k, e) ->
-  exists s' ret, o = Some (s', ret) /\ 0 <= ret /\ h_state s' = HT_CONNECTED /\ h_base s' = true /\ hinv s' /\
-    (h_fill s <= UPCAP -> vis vis_str e = map ODn (h_queue s) ++ map OByte (Uof s)) /\
-    (UPCAP < h_fill s -> clean e = false).
+(** popping off the ring = taking a prefix of its content; what is left is the rest *)
+Lemma ring_pop_spec cap s : hinv s -> 0 < h_fill s -> 1 <= cap ->
+  exists pos', ring_pop cap s = Some (takeZ cap (Uof s), pos', h_fill s - Z.min cap (h_fill s)) /\
+    0 <= pos' < lenZ (h_buf s) /\
+    ring_u (h_buf s) pos' (h_fill s - Z.min cap (h_fill s)) = dropZ cap (Uof s).
 Proof.
-  intros R E. destruct (hring_facts s R) as (A & B & C & D & Bs & F).
-  pose proof (handover_ok s R) as [SAFE LEAVES].
-  destruct o as [[s' ret]|]; [|exfalso; exact (safe_exec _ SAFE _ _ _ E)].
-  exists s', ret. split; auto.
-  assert (P' : 0 <= ret /\ h_state s' = HT_CONNECTED /\ h_base s' = true).
-  { revert E. apply (leaves_exec (fun s1 r => 0 <= r /\ h_state s1 = HT_CONNECTED /\ h_base s1 = true) (http_handover s)).
-    unfold http_handover. cbv zeta.
-    assert (FIN : forall a b data, leaves (fun s1 r0 => 0 <= r0 /\ h_state s1 = HT_CONNECTED /\ h_base s1 = true)
-      (mark_if (0 <? b) 3 (flush_queue (h_queue s)
-        (PUp data (-1) (PDone {| h_state := HT_CONNECTED; h_base := h_base s; h_queue := []; h_buf := h_buf s; h_pos := a; h_fill := b; h_cl := h_cl s |} 1))))).
-    { intros. unfold mark_if. destruct (0 <? b); [constructor|]; apply flush_queue_leaves;
-        apply lv_up; apply lv_done; simpl; repeat split; auto; lia. }
-    destruct (0 <? h_fill s).
-    2:{ apply flush_queue_leaves. apply lv_done. simpl. repeat split; auto; lia. }
-    destruct (_ <? _).
-    - destruct (mreadn _ _ _); [|constructor]. destruct (mreadn _ _ _); [|constructor]. apply FIN.
-    - destruct (mreadn _ _ _); [|constructor]. apply FIN. }
-  destruct P' as (P1 & P2 & P3).
-  assert (HI : hinv s') by exact (leaves_exec hP _ LEAVES _ _ _ _ _ E P1).
-  split; [exact P1|]. split; [exact P2|]. split; [exact P3|]. split; [exact HI|].
-  unfold http_handover in E. cbv zeta in E.
-  assert (VUP : forall data a b, b = 0 -> data = Uof s ->
-     exec (mark_if (0 <? b) 3 (flush_queue (h_queue s)
-        (PUp data (-1) (PDone {| h_state := HT_CONNECTED; h_base := h_base s; h_queue := []; h_buf := h_buf s; h_pos := a; h_fill := b; h_cl := h_cl s |} 1)))) kb
-       = (Some (s', ret), k, e) -> vis vis_str e = map ODn (h_queue s) ++ map OByte (Uof s)).
-  { intros data a b B0 DU EX. subst b data. change (0 <? 0) with false in EX. unfold mark_if in EX.
-    rewrite exec_flush_queue in EX. simpl in EX. inversion EX; subst. rewrite vis_app, vis_map_dn. simpl. rewrite !app_nil_r. reflexivity. }
-  assert (MK : forall data a b, 0 < b ->
-     exec (mark_if (0 <? b) 3 (flush_queue (h_queue s)
-        (PUp data (-1) (PDone {| h_state := HT_CONNECTED; h_base := h_base s; h_queue := []; h_buf := h_buf s; h_pos := a; h_fill := b; h_cl := h_cl s |} 1)))) kb
-       = (Some (s', ret), k, e) -> clean e = false).
-  { intros data a b BP EX. destruct (Z.ltb_spec 0 b); [|lia]. unfold mark_if in EX. eapply exec_mark_unclean; eauto. }
+  intros HI F0 CP. pose proof HI as (P & F & PL & C & CB).
+  assert (L0 : 0 < lenZ (h_buf s)) by lia.
+  assert (PL' : h_pos s < lenZ (h_buf s)) by lia.
+  destruct (ring_pop_ok cap s HI F0 CP) as (data & pos' & RP & PR & PE).
+  exists pos'.
+  assert (LU : lenZ (Uof s) = h_fill s) by (unfold Uof; apply lenZ_ring_u; lia).
+  assert (DR : ring_u (h_buf s) pos' (h_fill s - Z.min cap (h_fill s)) = dropZ cap (Uof s)).
+  { rewrite PE. rewrite (ring_consume (h_buf s) (lenZ (h_buf s)) (h_pos s) (h_fill s) (Z.min cap (h_fill s))) by lia.
+    fold (Uof s). destruct (Z.le_gt_cases cap (h_fill s)).
+    - rewrite Z.min_l by lia. reflexivity.
+    - rewrite Z.min_r by lia. rewrite !dropZ_all by lia. reflexivity. }
+  split; [|split; [exact PR|exact DR]].
+  rewrite RP. f_equal. f_equal. f_equal.
+  (* the bytes *)
+  unfold ring_pop in RP. cbv zeta in RP.
   assert (LD : lenZ (dropZ (h_pos s) (h_buf s)) = lenZ (h_buf s) - h_pos s) by (rewrite lenZ_dropZ; lia).
-  unfold UPCAP in *.
-  destruct (Z.ltb_spec 0 (h_fill s)).
-  2:{ assert (F0 : h_fill s = 0) by lia. split; [|lia]. intros _.
-      rewrite exec_flush_queue in E. simpl in E. inversion E; subst. rewrite vis_app, vis_map_dn. simpl.
-      assert (U0 : Uof s = []) by (apply lenZ_nil; lia). rewrite U0. simpl. rewrite !app_nil_r. reflexivity. }
+  unfold Uof, ring_u. rewrite takeZ_takeZ.
   destruct (Z.ltb_spec (lenZ (h_buf s)) (h_pos s + h_fill s)).
-  - set (len1 := Z.min (lenZ (h_buf s) - h_pos s) 70000) in *.
-    destruct (mreadn (h_buf s) (h_pos s) len1) as [d1|] eqn:M1; [|simpl in E; inversion E].
-    set (len2 := Z.min (h_fill s - len1) (70000 - len1)) in *.
-    destruct (mreadn (h_buf s) 0 len2) as [d2|] eqn:M2; [|simpl in E; inversion E].
+  - set (len1 := Z.min (lenZ (h_buf s) - h_pos s) cap) in *.
+    destruct (mreadn (h_buf s) (h_pos s) len1) as [d1|] eqn:M1; [|discriminate].
+    set (len2 := Z.min (h_fill s - len1) (cap - len1)) in *.
+    destruct (mreadn (h_buf s) 0 len2) as [d2|] eqn:M2; [|discriminate].
+    inversion RP; subst data.
+    unfold mreadn in M1, M2. rewrite fits_spec in M1, M2.
+    destruct (Z.leb_spec 0 (h_pos s)); [|lia]. destruct (Z.leb_spec 0 len1); [|unfold len1 in *; lia].
+    destruct (Z.leb_spec (h_pos s + len1) (lenZ (h_buf s))); [|unfold len1 in *; lia].
+    destruct (Z.leb_spec 0 0); [|lia]. destruct (Z.leb_spec 0 len2); [|unfold len2, len1 in *; lia].
+    destruct (Z.leb_spec (0 + len2) (lenZ (h_buf s))); [|unfold len2, len1 in *; lia]. cbn [andb] in M1, M2.
+    inversion M1; inversion M2; subst d1 d2.
+    rewrite (dropZ_nonpos 0) by lia.
+    destruct (Z.le_gt_cases cap (lenZ (h_buf s) - h_pos s)).
+    + assert (E1 : len1 = cap) by (unfold len1; lia). assert (E2 : len2 = 0) by (unfold len2; lia).
+      rewrite E1, E2. rewrite (takeZ_nonpos 0) by lia. rewrite app_nil_r.
+      rewrite Z.min_l by lia. rewrite takeZ_app_l by lia. reflexivity.
+    + assert (E1 : len1 = lenZ (h_buf s) - h_pos s) by (unfold len1; lia).
+      rewrite E1. rewrite (takeZ_all (lenZ (h_buf s) - h_pos s)) by lia.
+      rewrite takeZ_app_r by lia. rewrite LD. f_equal. f_equal. unfold len2. lia.
+  - set (len := Z.min (h_fill s) cap) in *.
+    destruct (mreadn (h_buf s) (h_pos s) len) as [d1|] eqn:M1; [|discriminate].
+    inversion RP; subst data.
+    unfold mreadn in M1. rewrite fits_spec in M1.
+    destruct (Z.leb_spec 0 (h_pos s)); [|lia]. destruct (Z.leb_spec 0 len); [|unfold len in *; lia].
+    destruct (Z.leb_spec (h_pos s + len) (lenZ (h_buf s))); [|unfold len in *; lia]. cbn [andb] in M1. inversion M1; subst d1.
+    rewrite takeZ_app_l by lia. f_equal. unfold len. lia.
+Qed.
+
+(* the hand-over at the end of the handshake: what is in the ring, as far as the caller's buffer goes; the
+   rest stays in the ring (and is handed out by the following calls) *)
+Lemma handover_exec cap s kb o k e : 1 <= cap -> hring s -> exec (http_handover cap s) kb = (o, k, e) ->
+  exists s' ret, o = Some (s', ret) /\ 0 <= ret /\ (ret = 0 -> h_fill s' = 0) /\
+    h_state s' = HT_CONNECTED /\ h_base s' = true /\ hinv s' /\ Uof s' = dropZ cap (Uof s) /\
+    vis vis_str e = map ODn (h_queue s) ++ map OByte (takeZ cap (Uof s)).
+Proof.
+  intros CP R E. destruct (hring_facts s R) as (A & B & C & D & Bs & F).
+  pose proof (proj1 R) as HI. pose proof HI as (P1 & P2 & P3 & P4 & P5).
+  unfold http_handover in E. cbv zeta in E.
+  destruct (Z.ltb_spec 0 (h_fill s)).
+  - destruct (ring_pop_spec cap s HI ltac:(lia) CP) as (pos' & RP & PR & DR). rewrite RP in E.
+    rewrite exec_flush_queue in E. simpl in E. inversion E; subst. eexists _, 1.
+    split; [reflexivity|]. split; [lia|]. split; [intros X; discriminate X|]. simpl.
+    split; [reflexivity|]. split; [exact Bs|]. split.
+    { unfold hinv; simpl. repeat split; try lia; auto. }
+    split; [exact DR|].
+    rewrite vis_app, vis_map_dn. unfold vis. simpl. rewrite !app_nil_r. reflexivity.
+  - assert (F0 : h_fill s = 0) by lia.
+    assert (U0 : Uof s = []) by (apply lenZ_nil; lia).
+    rewrite exec_flush_queue in E. simpl in E. inversion E; subst. eexists _, 0.
+    split; [reflexivity|]. split; [lia|]. split; [intros _; simpl; exact F0|]. simpl.
+    split; [reflexivity|]. split; [exact Bs|]. split.
+    { unfold hinv; simpl. repeat split; try lia; auto. }
     split.
-    + intros LE. eapply VUP; [| |exact E]; [unfold len1, len2; lia|].
-      assert (E1 : len1 = lenZ (h_buf s) - h_pos s) by (unfold len1; lia).
-      assert (E2 : len2 = h_fill s - (lenZ (h_buf s) - h_pos s)) by (unfold len2; lia).
-      unfold mreadn in M1, M2. rewrite fits_spec in M1, M2.
-      destruct (Z.leb_spec 0 (h_pos s)); [|lia]. destruct (Z.leb_spec 0 len1); [|lia].
-      destruct (Z.leb_spec (h_pos s + len1) (lenZ (h_buf s))); [|lia].
-      destruct (Z.leb_spec 0 0); [|lia]. destruct (Z.leb_spec 0 len2); [|lia].
-      destruct (Z.leb_spec (0 + len2) (lenZ (h_buf s))); [|lia]. cbn [andb] in M1, M2.
-      inversion M1; inversion M2; subst d1 d2.
-      rewrite (dropZ_nonpos 0) by lia. rewrite E1. rewrite takeZ_all by lia.
-      unfold Uof, ring_u. rewrite takeZ_app_r by lia. rewrite LD, E2. reflexivity.
-    + intros GT. eapply MK; [|exact E]. unfold len1, len2. lia.
-  - set (len := Z.min (h_fill s) 70000) in *.
-    destruct (mreadn (h_buf s) (h_pos s) len) as [d1|] eqn:M1; [|simpl in E; inversion E].
-    split.
-    + intros LE. eapply VUP; [| |exact E]; [unfold len; lia|].
-      assert (E1 : len = h_fill s) by (unfold len; lia).
-      unfold mreadn in M1. rewrite fits_spec in M1.
-      destruct (Z.leb_spec 0 (h_pos s)); [|lia]. destruct (Z.leb_spec 0 len); [|lia].
-      destruct (Z.leb_spec (h_pos s + len) (lenZ (h_buf s))); [|lia]. cbn [andb] in M1. inversion M1; subst d1.
-      unfold Uof, ring_u. rewrite E1. rewrite takeZ_app_l by lia. reflexivity.
-    + intros GT. eapply MK; [|exact E]. unfold len. lia.
+    { unfold Uof; simpl. fold (Uof s). rewrite U0. rewrite dropZ_nil. reflexivity. }
+    rewrite vis_app, vis_map_dn. rewrite U0, takeZ_nil. simpl. rewrite !app_nil_r. reflexivity.
 Qed.
 
 Lemma Uof_step s st n cl' : hring s -> 0 <= n <= h_fill s ->
@@ -941,22 +940,23 @@ Qed.
 Lemma exec_done {S} (s : S) r kb : exec (PDone s r) kb = (Some (s, r), kb, [Ret r]).
 Proof. reflexivity. Qed.
 
-(** a clean run of the concrete retry loop is the abstract loop on the ring's content *)
-Lemma parse_conc : forall fuel s kb o k e, hring s -> suff fuel (h_state s) (Uof s) ->
-  exec (http_parse fuel s) kb = (o, k, e) -> clean e = true ->
+(** a run of the concrete retry loop is the abstract loop on the ring's content *)
+Lemma parse_conc cap : 1 <= cap -> forall fuel s kb o k e, hring s -> suff fuel (h_state s) (Uof s) ->
+  exec (http_parse cap fuel s) kb = (o, k, e) ->
   k = kb /\ exists r, aparse fuel (h_state s) (h_cl s) (Uof s) = (r, false) /\
     match r with
     | ANeed st' cl' U' => exists s', o = Some (s', 0) /\ hring s' /\ h_state s' = st' /\ h_cl s' = cl' /\ Uof s' = U' /\
                                       h_queue s' = h_queue s /\ h_buf s' = h_buf s /\ vis vis_str e = []
     | AErr => exists s', o = Some (s', -1) /\ vis vis_str e = []
-    | AConn c rest => exists s' ret, o = Some (s', ret) /\ 0 <= ret /\ h_state s' = HT_CONNECTED /\
-                                      h_base s' = true /\ hinv s' /\ vis vis_str e = map ODn (h_queue s) ++ map OByte rest
+    | AConn c rest => exists s' ret, o = Some (s', ret) /\ 0 <= ret /\ (ret = 0 -> h_fill s' = 0) /\
+                                      h_state s' = HT_CONNECTED /\ h_base s' = true /\ hinv s' /\ Uof s' = dropZ cap rest /\
+                                      vis vis_str e = map ODn (h_queue s) ++ map OByte (takeZ cap rest)
     | AFuel => False
     end.
 Proof.
-  induction fuel as [|fuel IH]; intros s kb o k e R SF E CL.
+  intros CP. induction fuel as [|fuel IH]; intros s kb o k e R SF E.
   { unfold suff in SF. lia. }
-  split; [exact (readfree_exec _ (readfree_parse _ s) _ _ _ _ E)|].
+  split; [exact (readfree_exec _ (readfree_parse cap _ s) _ _ _ _ E)|].
   destruct (hring_facts s R) as (A & B & C & D & Bs & F).
   pose proof (lenZ_length (Uof s)) as LLU.
   assert (VW : forall p, 0 <= p < h_fill s -> gb (h_buf s) (lenZ (h_buf s)) (h_pos s) p = gb (Uof s ++ [0]) (h_fill s + 1) 0 p)
@@ -977,7 +977,7 @@ Proof.
     - unfold http_error in E. rewrite exec_done in E. inversion E; subst. eexists. split; [reflexivity|]. eexists. split; reflexivity.
     - assert (R1 := hring_step s HT_HEADERS n 0 R ltac:(lia) ltac:(lia)).
       assert (U1 := Uof_step s HT_HEADERS n 0 R ltac:(lia)).
-      destruct (IH _ _ _ _ _ R1 ltac:(unfold suff; rewrite U1; simpl h_state; rewrite rank_headers, length_dropZ by lia; lia) E CL)
+      destruct (IH _ _ _ _ _ R1 ltac:(unfold suff; rewrite U1; simpl h_state; rewrite rank_headers, length_dropZ by lia; lia) E)
         as [_ (r & AP & M)].
       simpl h_state in AP. simpl h_cl in AP. rewrite U1 in AP.
       exists r. split; [exact AP|].
@@ -1010,7 +1010,7 @@ Proof.
                          (Uof (with_ring s st1 ((h_pos s + n) mod lenZ (h_buf s)) (h_fill s - n) cl'))).
       { unfold suff. rewrite U1. simpl h_state. rewrite length_dropZ by lia. unfold st1.
         destruct (n =? 2); rewrite ?rank_body, ?rank_headers; lia. }
-      destruct (IH _ _ _ _ _ R1 SF1 E CL) as [_ (r & AP & M)].
+      destruct (IH _ _ _ _ _ R1 SF1 E) as [_ (r & AP & M)].
       simpl h_state in AP. simpl h_cl in AP. rewrite U1 in AP. rewrite AP.
       exists r. split; [reflexivity|].
       destruct r as [st' c' U'| |c rest|]; auto. }
@@ -1025,7 +1025,7 @@ Proof.
     - assert (R1 : hring (with_ring s HT_CONNECTED (h_pos s) (h_fill s) (h_cl s))).
       { destruct R as ((P1 & P2 & P3 & P4 & P5) & Q1 & Q2 & Q3). unfold hring, hinv, with_ring; simpl. repeat split; auto; lia. }
       assert (U1 : Uof (with_ring s HT_CONNECTED (h_pos s) (h_fill s) (h_cl s)) = Uof s) by reflexivity.
-      destruct (IH _ _ _ _ _ R1 ltac:(unfold suff; rewrite U1; simpl h_state; rewrite rank_connected; lia) E CL) as [_ (r & AP & M)].
+      destruct (IH _ _ _ _ _ R1 ltac:(unfold suff; rewrite U1; simpl h_state; rewrite rank_connected; lia) E) as [_ (r & AP & M)].
       simpl h_state in AP. simpl h_cl in AP. rewrite U1 in AP. exists r. split; [exact AP|].
       destruct r as [st' c' U'| |c rest|]; auto.
     - destruct (Z.eqb_spec (h_fill s) 0) as [F0|F0].
@@ -1035,7 +1035,7 @@ Proof.
         assert (Cc : 1 <= c <= h_fill s) by (unfold c; lia).
         assert (R1 := hring_step s HT_BODY c (h_cl s - c) R ltac:(lia) ltac:(unfold c; lia)).
         assert (U1 := Uof_step s HT_BODY c (h_cl s - c) R ltac:(lia)).
-        destruct (IH _ _ _ _ _ R1 ltac:(unfold suff; rewrite U1; simpl h_state; rewrite rank_body, length_dropZ by lia; lia) E CL)
+        destruct (IH _ _ _ _ _ R1 ltac:(unfold suff; rewrite U1; simpl h_state; rewrite rank_body, length_dropZ by lia; lia) E)
           as [_ (r & AP & M)].
         simpl h_state in AP. simpl h_cl in AP. rewrite U1 in AP. exists r. split; [exact AP|].
         destruct r as [st' c' U'| |c0 rest|]; auto. }
@@ -1043,11 +1043,9 @@ Proof.
   destruct (Z.eqb_spec (h_state s) HT_INIT); [contradiction|]. destruct (Z.eqb_spec (h_state s) HT_HEADERS); [contradiction|].
   destruct (Z.eqb_spec (h_state s) HT_BODY); [contradiction|].
   destruct (Z.eqb_spec (h_state s) HT_CONNECTED) as [S3|S3].
-  - destruct (handover_exec s kb o k e R E) as (s' & ret & O & R0 & ST & BS & HI & V0 & VC).
+  - destruct (handover_exec cap s kb o k e CP R E) as (s' & ret & O & R0 & RZ & ST & BS & HI & UD & V0).
     eexists. split; [reflexivity|].
-    assert (F0 : h_fill s <= UPCAP).
-    { destruct (Z.le_gt_cases (h_fill s) UPCAP); auto. rewrite VC in CL by lia. discriminate. }
-    exists s', ret. split; [exact O|]. split; [exact R0|]. split; [exact ST|]. split; [exact BS|]. split; [exact HI|]. apply V0. exact F0.
+    exists s', ret. refine (conj O (conj R0 (conj RZ (conj ST (conj BS (conj HI (conj UD V0))))))).
   - unfold http_error in E. rewrite exec_done in E. inversion E; subst. eexists. split; [reflexivity|]. eexists. split; reflexivity.
 Qed.
 
@@ -1076,20 +1074,21 @@ Qed.
 
 (** one call of recv_messages in a handshake state: the bytes it reads are appended to the logical
     content and the abstract loop decides *)
-Lemma call_conc G s kb o k e : hs_inv s -> kb <> [] ->
-  exec (http_body G s) kb = (o, k, e) -> clean e = true ->
+Lemma call_conc cap G s kb o k e : 1 <= cap -> hs_inv s -> kb <> [] ->
+  exec (http_body cap G s) kb = (o, k, e) ->
   exists d, kb = d ++ k /\ d <> [] /\
   exists F r, suff F (h_state s) (Uof s ++ d) /\ aparse F (h_state s) (h_cl s) (Uof s ++ d) = (r, false) /\
     match r with
     | ANeed st' cl' U' => exists s', o = Some (s', 0) /\ hs_inv s' /\ h_state s' = st' /\ h_cl s' = cl' /\ Uof s' = U' /\
                                       h_queue s' = h_queue s /\ vis vis_str e = []
     | AErr => exists s', o = Some (s', -1) /\ vis vis_str e = []
-    | AConn c rest => exists s' ret, o = Some (s', ret) /\ 0 <= ret /\ h_state s' = HT_CONNECTED /\
-                                      h_base s' = true /\ hinv s' /\ vis vis_str e = map ODn (h_queue s) ++ map OByte rest
+    | AConn c rest => exists s' ret, o = Some (s', ret) /\ 0 <= ret /\ (ret = 0 -> h_fill s' = 0) /\
+                                      h_state s' = HT_CONNECTED /\ h_base s' = true /\ hinv s' /\ Uof s' = dropZ cap rest /\
+                                      vis vis_str e = map ODn (h_queue s) ++ map OByte (takeZ cap rest)
     | AFuel => False
     end.
 Proof.
-  intros (HI & Bs & ST) NK E CL. pose proof HI as (P & F & PL & C & CB).
+  intros CP (HI & Bs & ST) NK E. pose proof HI as (P & F & PL & C & CB).
   pose proof (lenZ_pos kb NK) as Lk.
   unfold http_body in E.
   destruct (Z.eqb_spec (h_state s) HT_CONNECTED) as [SC|SC].
@@ -1133,13 +1132,12 @@ Proof.
   { unfold Uof at 1. unfold s2; simpl. rewrite <- U0.
     apply (ring_write buf L pos (h_fill s) d b1 b2 eq_refl ltac:(lia) ltac:(lia) ltac:(lia) W1 W2). }
   set (fuel := Datatypes.S (Datatypes.S (Datatypes.S (Datatypes.S (Datatypes.S (Z.to_nat (h_fill s + lenZ d))))))) in *.
-  destruct (exec (http_parse fuel s2) rest) as [[o' k'] e'] eqn:EP.
+  destruct (exec (http_parse cap fuel s2) rest) as [[o' k'] e'] eqn:EP.
   inversion E; subst o' k' e. clear E.
-  simpl in CL.
   assert (SF : suff fuel (h_state s2) (Uof s2)).
   { unfold suff. pose proof (hring_facts s2 R2) as (_ & _ & _ & _ & _ & X). pose proof (lenZ_length (Uof s2)).
     pose proof (rank_le (h_state s2)). unfold fuel. simpl h_fill in X. lia. }
-  destruct (parse_conc fuel s2 rest o k e' R2 SF EP CL) as [KK (r & AP & M)].
+  destruct (parse_conc cap CP fuel s2 rest o k e' R2 SF EP) as [KK (r & AP & M)].
   subst k. exists d. split; [unfold d, rest; symmetry; apply takeZ_dropZ|].
   split; [intros X; rewrite X, lenZ_nil0 in Ld; lia|].
   exists fuel, r. rewrite <- U2. split; [exact SF|]. split; [exact AP|].
@@ -1177,7 +1175,7 @@ Definition spec_ok (q : list (list Z)) (r : ares) (w : wst hst) (e : list ev) : 
                         aeq st' (h_cl (inner w)) cl' U' /\ h_queue (inner w) = q /\ vis vis_str e = []
   | AErr => dead w = 1 /\ vis vis_str e = []
   | AConn c rest => dead w = 0 /\ h_state (inner w) = HT_CONNECTED /\ h_base (inner w) = true /\ hinv (inner w) /\
-                    vis vis_str e = map ODn q ++ map OByte rest
+                    h_fill (inner w) = 0 /\ vis vis_str e = map ODn q ++ map OByte rest
   | AFuel => False
   end.
 
@@ -1195,44 +1193,115 @@ Definition big (st : Z) (W : list Z) : nat := Datatypes.S (length W + rank st).
 Lemma big_suff st W : suff (big st W) st W.
 Proof. unfold suff, big. lia. Qed.
 
-Lemma http_connected_transparent G s : h_state s = HT_CONNECTED -> h_base s = true -> transparent (http_body G) vis_str s.
-Proof. intros H B. apply passthrough_transparent. unfold http_body. rewrite H, B. reflexivity. Qed.
+Lemma vis_up d : vis vis_str [Up d (-1); Ret 1] = map OByte d.
+Proof. unfold vis. simpl. rewrite !app_nil_r. reflexivity. Qed.
+Lemma vis_rd_up st a b d : vis vis_str [Rd st a b; Up d (-1); Ret 1] = map OByte d.
+Proof. unfold vis. simpl. rewrite !app_nil_r. reflexivity. Qed.
+
+(** a readable event on a connected socket: what is left in the ring comes out first, then the chunk; at the
+    end of the event (the call that would block) the ring is empty *)
+Lemma conn_drainw cap G : 1 <= cap -> forall fu s kb more w e,
+  h_state s = HT_CONNECTED -> hinv s -> (hmeas s kb < fu)%nat ->
+  (kb <> [] \/ more = true \/ h_fill s = 0) ->
+  drainw (http_body cap G) fu s kb more = (w, e) ->
+  dead w = 0 /\ h_state (inner w) = HT_CONNECTED /\ h_base (inner w) = true /\ hinv (inner w) /\ h_fill (inner w) = 0 /\
+  vis vis_str e = map OByte (Uof s ++ kb) /\ (h_fill s = 0 -> inner w = s).
+Proof.
+  intros CP. induction fu as [|fu IH]; intros s kb more w e SC HI LF ST D; [lia|].
+  pose proof HI as (P & F & PL & C & CB). pose proof (CB SC) as Bs.
+  assert (LU : lenZ (Uof s) = h_fill s) by (unfold Uof; apply lenZ_ring_u; lia).
+  simpl drainw in D.
+  destruct (match kb with [] => negb more | _ :: _ => false end) eqn:STOP.
+  { destruct kb; [|discriminate]. destruct more; [discriminate|].
+    destruct ST as [X|[X|X]]; try congruence.
+    inversion D; subst; simpl. assert (U0 : Uof s = []) by (apply lenZ_nil; lia). rewrite U0.
+    refine (conj eq_refl (conj SC (conj Bs (conj HI (conj X (conj eq_refl (fun _ => eq_refl))))))). }
+  clear STOP. pose proof (lenZ_nonneg kb) as K0'.
+  destruct (Z.ltb_spec 0 (h_fill s)) as [FP|FZ].
+  - destruct (ring_pop_spec cap s HI FP CP) as (pos' & RP & PR & DR).
+    set (s1 := with_ring s HT_CONNECTED pos' (h_fill s - Z.min cap (h_fill s)) (h_cl s)) in *.
+    assert (EX : exec (http_body cap G s) kb = (Some (s1, 1), kb, [Up (takeZ cap (Uof s)) (-1); Ret 1])).
+    { unfold http_body. rewrite SC. change (HT_CONNECTED =? HT_CONNECTED) with true. cbv iota.
+      destruct (Z.ltb_spec 0 (h_fill s)); [|lia]. rewrite RP. reflexivity. }
+    rewrite EX in D. change (1 <? 0) with false in D. change (1 =? 0) with false in D. simpl andb in D. cbv iota in D.
+    destruct (drainw (http_body cap G) fu s1 kb (0 <? 1)) as [w' e'] eqn:D'. injection D as DW DE. subst w e.
+    assert (HI1 : hinv s1) by (unfold hinv, s1, with_ring; simpl; repeat split; try lia; auto).
+    assert (LF1 : (hmeas s1 kb < fu)%nat) by (unfold hmeas in *; unfold s1, with_ring; cbn [h_fill]; lia).
+    destruct (IH s1 kb (0 <? 1) w' e' eq_refl HI1 LF1 (or_intror (or_introl eq_refl)) D') as (A1 & A2 & A3 & A4 & A5 & A6 & _).
+    refine (conj A1 (conj A2 (conj A3 (conj A4 (conj A5 (conj _ _)))))); [|intros X; lia].
+    change (?x :: ?y :: e') with ([x; y] ++ e').
+    rewrite vis_app, vis_up, A6. unfold Uof at 2. unfold s1, with_ring; simpl. rewrite DR.
+    rewrite <- map_app. f_equal. rewrite app_assoc, takeZ_dropZ. reflexivity.
+  - assert (F0 : h_fill s = 0) by lia. assert (U0 : Uof s = []) by (apply lenZ_nil; lia).
+    pose proof (lenZ_takeZ cap kb) as LT. pose proof (lenZ_dropZ cap kb) as LD. pose proof (lenZ_nonneg kb) as K0.
+    assert (EX : exec (http_body cap G s) kb =
+                 if lenZ (takeZ cap kb) =? 0 then (Some (s, 0), dropZ cap kb, [Rd false cap (lenZ (takeZ cap kb)); Ret 0])
+                 else (Some (s, 1), dropZ cap kb, [Rd false cap (lenZ (takeZ cap kb)); Up (takeZ cap kb) (-1); Ret 1])).
+    { unfold http_body. rewrite SC. change (HT_CONNECTED =? HT_CONNECTED) with true. cbv iota.
+      destruct (Z.ltb_spec 0 (h_fill s)); [lia|]. rewrite Bs. unfold passthrough_cap. rewrite exec_read.
+      destruct (lenZ (takeZ cap kb) =? 0); reflexivity. }
+    rewrite EX in D.
+    destruct (Z.eqb_spec (lenZ (takeZ cap kb)) 0) as [D0|D0].
+    + assert (KN : kb = []) by (apply lenZ_nil; lia). subst kb.
+      simpl in D. injection D as DW DE. subst w e. simpl. rewrite U0.
+      refine (conj eq_refl (conj SC (conj Bs (conj HI (conj F0 (conj eq_refl (fun _ => eq_refl))))))).
+    + change (1 <? 0) with false in D. change (1 =? 0) with false in D. simpl andb in D. cbv iota in D.
+      destruct (drainw (http_body cap G) fu s (dropZ cap kb) (0 <? 1)) as [w' e'] eqn:D'. injection D as DW DE. subst w e.
+      assert (LF1 : (hmeas s (dropZ cap kb) < fu)%nat) by (unfold hmeas in *; lia).
+      destruct (IH s (dropZ cap kb) (0 <? 1) w' e' SC HI LF1 (or_intror (or_introl eq_refl)) D') as (A1 & A2 & A3 & A4 & A5 & A6 & A7).
+      refine (conj A1 (conj A2 (conj A3 (conj A4 (conj A5 (conj _ A7)))))).
+      change (?x :: ?y :: ?z :: e') with ([x; y; z] ++ e').
+      rewrite vis_app, vis_rd_up, A6, U0. simpl app. rewrite <- map_app, takeZ_dropZ. reflexivity.
+Qed.
+
+Lemma drainw_step {S} (body : S -> prog S) fu s kb more : kb <> [] ->
+  drainw body (Datatypes.S fu) s kb more =
+  let '(o, kb1, e1) := exec (body s) kb in
+  match o with
+  | None => ({| inner := s; dead := 2 |}, e1)
+  | Some (s1, r) =>
+      if r <? 0 then ({| inner := s1; dead := 1 |}, e1)
+      else if (r =? 0) && (lenZ kb1 =? lenZ kb) then ({| inner := s1; dead := 3 |}, e1 ++ [ELive])
+      else let '(w, e2) := drainw body fu s1 kb1 (0 <? r) in (w, e1 ++ e2)
+  end.
+Proof. intros N. destruct kb; [congruence|]. reflexivity. Qed.
+Lemma drainw_nil {S} (body : S -> prog S) fu s : drainw body fu s [] false = ({| inner := s; dead := 0 |}, []).
+Proof. destruct fu; reflexivity. Qed.
 
 (** a readable event in a handshake state *)
-Lemma drain_conc G : forall n kb, (length kb <= n)%nat -> kb <> [] -> forall s fu w e,
-  hs_inv s -> (length kb <= fu)%nat -> drain (http_body G) fu s kb = (w, e) -> clean e = true ->
+Lemma drainw_conc cap G : 1 <= cap -> forall n kb, (length kb <= n)%nat -> kb <> [] -> forall s fu w e,
+  hs_inv s -> (hmeas s kb < fu)%nat -> drainw (http_body cap G) fu s kb false = (w, e) ->
   forall F, suff F (h_state s) (Uof s ++ kb) ->
   exists r0, aparse F (h_state s) (h_cl s) (Uof s ++ kb) = (r0, false) /\ spec_ok (h_queue s) r0 w e.
 Proof.
-  induction n as [|n IH]; intros kb Ln NK s fu w e HS LF D CL F SF.
+  intros CP. induction n as [|n IH]; intros kb Ln NK s fu w e HS LF D F SF.
   { destruct kb; [congruence | simpl in Ln; lia]. }
-  destruct fu as [|fu]; [destruct kb; [congruence | simpl in LF; lia]|].
-  rewrite drain_step in D by exact NK.
-  destruct (exec (http_body G s) kb) as [[o k] e1] eqn:E1.
-  assert (C1 : clean e1 = true).
-  { destruct o as [[s1 r]|]; [|inversion D; subst; auto].
-    destruct (r <? 0); [inversion D; subst; auto|].
-    destruct (lenZ k =? lenZ kb); [inversion D; subst; rewrite clean_app in CL; apply andb_true_iff in CL; tauto|].
-    destruct (drain (http_body G) fu s1 k); inversion D; subst. rewrite clean_app in CL; apply andb_true_iff in CL; tauto. }
-  destruct (call_conc G s kb o k e1 HS NK E1 C1) as (d & KB & ND & F1 & r1 & SF1 & AP1 & M).
+  destruct fu as [|fu]; [lia|].
+  rewrite drainw_step in D by exact NK.
+  destruct (exec (http_body cap G s) kb) as [[o k] e1] eqn:E1.
+  destruct (call_conc cap G s kb o k e1 CP HS NK E1) as (d & KB & ND & F1 & r1 & SF1 & AP1 & M).
+  pose proof (http_call_okw cap G CP s kb o k e1 (proj1 HS) E1) as OKW.
   pose proof (lenZ_pos d ND) as Ld.
   assert (NP : (lenZ k =? lenZ kb) = false).
   { apply Z.eqb_neq. rewrite KB, lenZ_app. lia. }
+  assert (NP' : forall r, (r =? 0) && (lenZ k =? lenZ kb) = false) by (intros; rewrite NP; apply andb_false_r).
   assert (HSc : 0 <= h_cl s) by (destruct HS as ((_ & _ & _ & X & _) & _); exact X).
   assert (LK : (length k < length kb)%nat).
   { rewrite KB, app_length. pose proof (lenZ_length d). lia. }
+  assert (MD : forall s1 r, o = Some (s1, r) -> 0 <= r -> (hmeas s1 k < fu)%nat).
+  { intros s1 r -> R. destruct (OKW R) as [_ [(_ & X & _)|(_ & X)]]; [apply Z.eqb_neq in NP; contradiction|lia]. }
   rewrite KB in SF. rewrite app_assoc in SF.
   destruct r1 as [st' cl' U'| |c rs|]; try contradiction.
   - (* the parser wants more *)
-    destruct M as (s' & O & HS' & S1 & S2 & S3 & S4 & V1). subst o.
-    change (0 <? 0) with false in D. cbv iota in D. rewrite NP in D.
-    destruct (drain (http_body G) fu s' k) as [w' e2] eqn:D2. inversion D; subst w' e. clear D.
-    rewrite clean_app in CL. apply andb_true_iff in CL as [_ C2].
+    destruct M as (s' & O & HS' & S1 & S2 & S3 & S4 & V1).
+    pose proof (MD _ _ O ltac:(lia)) as LF'. subst o.
+    change (0 <? 0) with false in D. cbv iota in D. rewrite NP' in D.
+    destruct (drainw (http_body cap G) fu s' k false) as [w' e2] eqn:D2. injection D as DW DE. subst w e.
     rewrite KB. rewrite app_assoc.
     pose proof (aparse_stable F1 _ _ _ _ HSc AP1 ltac:(discriminate) k F SF) as ST. simpl in ST.
     destruct k as [|x k'].
     + (* nothing left: the event is over *)
-      rewrite drain_nil in D2. inversion D2; subst w e2.
+      rewrite drainw_nil in D2. injection D2 as DW DE. subst w' e2.
       specialize (ST (big st' (U' ++ [])) (big_suff _ _)).
       rewrite app_nil_r in *.
       assert (Cc' : 0 <= cl').
@@ -1241,7 +1310,7 @@ Proof.
       simpl. rewrite S4, app_nil_r. refine (conj eq_refl (conj HS' (conj S1 (conj S3 (conj _ (conj eq_refl V1)))))). left; auto.
     + assert (NK' : x :: k' <> []) by discriminate.
       assert (HSc' : 0 <= h_cl s') by (destruct HS' as ((_ & _ & _ & X & _) & _); exact X).
-      destruct (IH (x :: k') ltac:(lia) NK' s' fu w e2 HS' ltac:(lia) D2 C2 (big st' (U' ++ x :: k'))
+      destruct (IH (x :: k') ltac:(lia) NK' s' fu w' e2 HS' LF' D2 (big st' (U' ++ x :: k'))
                   ltac:(rewrite S1, S3; apply big_suff)) as (r0' & AP' & OK').
       rewrite S1, S2, S3 in AP'.
       specialize (ST (big st' (U' ++ x :: k')) (big_suff _ _)). rewrite AP' in ST.
@@ -1254,26 +1323,31 @@ Proof.
       * destruct OK' as (B1 & B2 & B3 & B4 & B5 & B6 & B7).
         refine (conj B1 (conj B2 (conj B3 (conj B4 (conj B5 (conj B6 _)))))). rewrite vis_app, V1, B7. reflexivity.
       * destruct OK' as (B1 & B7). split; auto. rewrite vis_app, V1, B7. reflexivity.
-      * destruct OK' as (B1 & B2 & B3 & B4 & B7).
-        refine (conj B1 (conj B2 (conj B3 (conj B4 _)))). rewrite vis_app, V1, B7. reflexivity.
+      * destruct OK' as (B1 & B2 & B3 & B4 & B5 & B7).
+        refine (conj B1 (conj B2 (conj B3 (conj B4 (conj B5 _))))). rewrite vis_app, V1, B7. reflexivity.
   - (* the proxy refused / the reply is malformed *)
-    destruct M as (s' & O & V1). subst o. change (-1 <? 0) with true in D. cbv iota in D. inversion D; subst w e.
+    destruct M as (s' & O & V1). subst o. change (-1 <? 0) with true in D. cbv iota in D. injection D as DW DE. subst w e.
     rewrite KB, app_assoc.
     pose proof (aparse_stable F1 _ _ _ _ HSc AP1 ltac:(discriminate) k F SF) as ST. simpl in ST.
     rewrite ST. eexists. split; [reflexivity|]. simpl. auto.
-  - (* connected; what followed the reply in this read was handed over, the rest of the chunk is tunnelled *)
-    destruct M as (s' & ret & O & R0 & SC & BS & HI & V1). subst o.
-    destruct (Z.ltb_spec ret 0); [lia|]. rewrite NP in D.
-    destruct (drain (http_body G) fu s' k) as [w' e2] eqn:D2. inversion D; subst w' e. clear D.
-    destruct (http_connected_transparent G s' SC BS fu k w e2 ltac:(lia) D2) as [-> V2].
+  - (* connected: what followed the reply in this read is handed over as far as the caller's buffer goes, the
+       following calls hand out the rest of the ring and then the rest of the chunk *)
+    destruct M as (s' & ret & O & R0 & RZ & SC & BS & HI & UD & V1).
+    pose proof (MD _ _ O R0) as LF'. subst o.
+    destruct (Z.ltb_spec ret 0); [lia|]. rewrite NP' in D.
+    destruct (drainw (http_body cap G) fu s' k (0 <? ret)) as [w' e2] eqn:D2. injection D as DW DE. subst w e.
+    assert (ST' : k <> [] \/ (0 <? ret) = true \/ h_fill s' = 0).
+    { destruct (Z.eq_dec ret 0) as [Z0|Z0]; [right; right; auto|right; left; apply Z.ltb_lt; lia]. }
+    destruct (conn_drainw cap G CP fu s' k (0 <? ret) w' e2 SC HI LF' ST' D2) as (A1 & A2 & A3 & A4 & A5 & A6 & _).
     rewrite KB, app_assoc.
     pose proof (aparse_stable F1 _ _ _ _ HSc AP1 ltac:(discriminate) k F SF) as ST. simpl in ST.
     rewrite ST. eexists. split; [reflexivity|]. simpl.
-    refine (conj eq_refl (conj SC (conj BS (conj HI _)))).
-    rewrite vis_app, V1, V2, map_app, app_assoc. reflexivity.
+    refine (conj A1 (conj A2 (conj A3 (conj A4 (conj A5 _))))).
+    rewrite vis_app, V1, A6, UD. rewrite <- app_assoc, <- map_app. f_equal. f_equal.
+    rewrite app_assoc, takeZ_dropZ. reflexivity.
 Qed.
 
-(** * the specification: what a stream means, independent of any chunking *)
+(** * the specification: what a stream means, independent of any chunking and of the caller's buffer sizes *)
 Definition http_start (q : list (list Z)) : hst :=
   {| h_state := HT_INIT; h_base := true; h_queue := q; h_buf := []; h_pos := 0; h_fill := 0; h_cl := 0 |}.
 
@@ -1286,6 +1360,9 @@ Definition http_spec (q : list (list Z)) (T : list Z) : list obs * Z :=
   | AFuel => ([], 2)
   end.
 
+(* the byte stream of a run *)
+Definition stream_of (cs : list (Z * list Z)) : list Z := concat (map snd cs).
+
 Definition Inv (q : list (list Z)) (T : list Z) (w : wst hst) (e : list ev) : Prop :=
   exists r0, aparse (big HT_INIT T) HT_INIT 0 T = (r0, false) /\ spec_ok q r0 w e.
 
@@ -1296,22 +1373,22 @@ Proof.
   unfold hs_inv, hinv, http_start; simpl. rewrite lenZ_nil0. repeat split; auto; try lia; try discriminate.
 Qed.
 
-Lemma Inv_feed G q T w e0 c w' e' : Inv q T w e0 -> feed (http_body G) w c = (w', e') -> clean e' = true ->
+Lemma Inv_feed cap G q T w e0 c w' e' : 1 <= cap -> Inv q T w e0 -> http_feed cap G w c = (w', e') ->
   Inv q (T ++ c) w' (e0 ++ e').
 Proof.
-  intros (r0 & AP & OK) FD CL. unfold Inv.
+  intros CP (r0 & AP & OK) FD. unfold Inv.
   assert (Z00 : 0 <= 0) by lia.
   pose proof (aparse_stable _ _ _ _ _ Z00 AP) as ST.
   destruct r0 as [st' cl' U'| |c0 rest|]; simpl in OK; try contradiction.
   - destruct OK as (D0 & HS & S1 & S3 & AQ & Q & V0).
     specialize (ST ltac:(discriminate) c (big HT_INIT (T ++ c)) (big_suff _ _)). cbv beta iota in ST.
-    unfold feed in FD. rewrite D0 in FD. change (0 =? 0) with true in FD. cbv iota in FD.
+    unfold http_feed in FD. rewrite D0 in FD. change (0 =? 0) with true in FD. cbv iota in FD.
     destruct c as [|x c'].
-    + simpl in FD. inversion FD; subst w' e'. rewrite !app_nil_r.
+    + rewrite drainw_nil in FD. injection FD as DW DE. subst w' e'. rewrite !app_nil_r.
       exists (ANeed st' cl' U'). split; [exact AP|]. simpl.
       refine (conj eq_refl (conj HS (conj S1 (conj S3 (conj AQ (conj Q V0)))))).
     + assert (NK : x :: c' <> []) by discriminate.
-      destruct (drain_conc G (length (x :: c')) (x :: c') (le_n _) NK (inner w) _ w' e' HS (le_n _) FD CL
+      destruct (drainw_conc cap G CP (length (x :: c')) (x :: c') (le_n _) NK (inner w) _ w' e' HS (http_fuel_ok _ _) FD
                   (big st' (U' ++ x :: c')) ltac:(rewrite S1, S3; apply big_suff)) as (r1 & AP1 & OK1).
       rewrite S1, S3 in AP1.
       specialize (ST (big st' (U' ++ x :: c')) (big_suff _ _)).
@@ -1326,44 +1403,65 @@ Proof.
       * destruct OK2 as (B1 & B2 & B3 & B4 & B5 & B6 & B7).
         refine (conj B1 (conj B2 (conj B3 (conj B4 (conj B5 (conj B6 _)))))). rewrite vis_app, V0, B7. reflexivity.
       * destruct OK2 as (B1 & B7). split; auto. rewrite vis_app, V0, B7. reflexivity.
-      * destruct OK2 as (B1 & B2 & B3 & B4 & B7).
-        refine (conj B1 (conj B2 (conj B3 (conj B4 _)))). rewrite vis_app, V0, B7. reflexivity.
+      * destruct OK2 as (B1 & B2 & B3 & B4 & B5 & B7).
+        refine (conj B1 (conj B2 (conj B3 (conj B4 (conj B5 _))))). rewrite vis_app, V0, B7. reflexivity.
   - destruct OK as (D1 & V0).
     specialize (ST ltac:(discriminate) c (big HT_INIT (T ++ c)) (big_suff _ _)). cbv beta iota in ST.
-    unfold feed in FD. rewrite D1 in FD. change (1 =? 0) with false in FD. cbv iota in FD. inversion FD; subst w' e'.
+    unfold http_feed in FD. rewrite D1 in FD. change (1 =? 0) with false in FD. cbv iota in FD. injection FD as DW DE. subst w' e'.
     exists AErr. split; [exact ST|]. simpl. rewrite app_nil_r. auto.
-  - destruct OK as (D0 & SC & BS & HI & V0).
+  - destruct OK as (D0 & SC & BS & HI & F0 & V0).
     specialize (ST ltac:(discriminate) c (big HT_INIT (T ++ c)) (big_suff _ _)). cbv beta iota in ST.
-    unfold feed in FD. rewrite D0 in FD. change (0 =? 0) with true in FD. cbv iota in FD.
-    destruct (http_connected_transparent G (inner w) SC BS _ _ _ _ (le_n _) FD) as [-> V1].
+    unfold http_feed in FD. rewrite D0 in FD. change (0 =? 0) with true in FD. cbv iota in FD.
+    destruct (conn_drainw cap G CP _ (inner w) c false w' e' SC HI (http_fuel_ok _ _) (or_intror (or_intror F0)) FD)
+      as (A1 & A2 & A3 & A4 & A5 & A6 & _).
+    assert (U0 : Uof (inner w) = []).
+    { apply lenZ_nil. rewrite (Uof_len _ HI). exact F0. }
     exists (AConn c0 (rest ++ c)). split; [exact ST|]. simpl.
-    refine (conj eq_refl (conj SC (conj BS (conj HI _)))).
-    rewrite vis_app, V0, V1, map_app, app_assoc. reflexivity.
+    refine (conj A1 (conj A2 (conj A3 (conj A4 (conj A5 _))))).
+    rewrite vis_app, V0, A6, U0. simpl app. rewrite map_app, app_assoc. reflexivity.
 Qed.
 
-Lemma Inv_run G q : forall cs T w e0, Inv q T w e0 -> clean (snd (run (http_body G) w cs)) = true ->
-  Inv q (T ++ concat cs) (fst (run (http_body G) w cs)) (e0 ++ snd (run (http_body G) w cs)).
+Lemma Inv_run G q : forall cs T w e0, caps_ok cs -> Inv q T w e0 ->
+  Inv q (T ++ stream_of cs) (fst (http_run G w cs)) (e0 ++ snd (http_run G w cs)).
 Proof.
-  induction cs as [|c cs IH]; intros T w e0 I CL; simpl in *.
-  - rewrite !app_nil_r. exact I.
-  - destruct (feed (http_body G) w c) as [w1 e1] eqn:FD. destruct (run (http_body G) w1 cs) as [w2 e2] eqn:RN. simpl in *.
-    rewrite clean_app in CL. apply andb_true_iff in CL as [C1 C2].
-    pose proof (Inv_feed G q T w e0 c w1 e1 I FD C1) as I1.
-    specialize (IH (T ++ c) w1 (e0 ++ e1) I1). rewrite RN in IH. simpl in IH.
-    rewrite <- !app_assoc in IH. apply IH. exact C2.
+  induction cs as [|[cap c] cs IH]; intros T w e0 CO I; simpl in *.
+  - unfold stream_of; simpl. rewrite !app_nil_r. exact I.
+  - inversion CO as [|? ? C1 C2]; subst. simpl in C1.
+    destruct (http_feed cap G w c) as [w1 e1] eqn:FD. destruct (http_run G w1 cs) as [w2 e2] eqn:RN. simpl in *.
+    pose proof (Inv_feed cap G q T w e0 c w1 e1 C1 I FD) as I1.
+    specialize (IH (T ++ c) w1 (e0 ++ e1) C2 I1). rewrite RN in IH. simpl in IH.
+    unfold stream_of in *. simpl. rewrite <- !app_assoc in IH. exact IH.
 Qed.
 
-(** every clean delivery of a stream, however it is cut, shows exactly what the specification says *)
-Theorem http_seg_independent G q cs :
-  clean (snd (run (http_body G) (alive (http_start q)) cs)) = true ->
-  vis vis_str (snd (run (http_body G) (alive (http_start q)) cs)) = fst (http_spec q (concat cs)) /\
-  dead (fst (run (http_body G) (alive (http_start q)) cs)) = snd (http_spec q (concat cs)).
+(** every delivery of a stream, however it is cut and whatever the sizes (>= 1) of the caller's receive buffer
+    in the successive readable events, shows exactly what the specification says *)
+Theorem http_seg_independent G q cs : caps_ok cs ->
+  vis vis_str (snd (http_run G (alive (http_start q)) cs)) = fst (http_spec q (stream_of cs)) /\
+  dead (fst (http_run G (alive (http_start q)) cs)) = snd (http_spec q (stream_of cs)).
 Proof.
-  intros CL. pose proof (Inv_run G q cs [] _ [] (Inv_start q) CL) as (r0 & AP & OK).
+  intros CO. pose proof (Inv_run G q cs [] _ [] CO (Inv_start q)) as (r0 & AP & OK).
   simpl app in *. unfold http_spec. rewrite AP. simpl fst.
   destruct r0 as [a1 a2 a3| |a1 a2|]; simpl in *.
   - destruct OK as (B1 & _ & _ & _ & _ & _ & B7). auto.
   - destruct OK as (B1 & B7). auto.
-  - destruct OK as (B1 & _ & _ & _ & B7). auto.
+  - destruct OK as (B1 & _ & _ & _ & _ & B7). auto.
   - contradiction.
+Qed.
+
+(** an established tunnel (nothing left in the ring) stays one and hands every byte upward *)
+Theorem http_tunnel_transparent G s : h_state s = HT_CONNECTED -> hinv s -> h_fill s = 0 -> forall cs, caps_ok cs ->
+  fst (http_run G (alive s) cs) = alive s /\
+  vis vis_str (snd (http_run G (alive s) cs)) = map OByte (stream_of cs).
+Proof.
+  intros SC HI F0. assert (U0 : Uof s = []) by (apply lenZ_nil; rewrite (Uof_len _ HI); exact F0).
+  induction cs as [|[cap c] cs IH]; intros CO; simpl; auto.
+  inversion CO as [|? ? C1 C2]; subst. simpl in C1.
+  destruct (http_feed cap G (alive s) c) as [w1 e1] eqn:FD.
+  unfold http_feed in FD. simpl in FD.
+  destruct (conn_drainw cap G C1 _ s c false w1 e1 SC HI (http_fuel_ok _ _) (or_intror (or_intror F0)) FD)
+    as (A1 & A2 & A3 & A4 & A5 & A6 & A7).
+  assert (W1 : w1 = alive s) by (destruct w1 as [i d]; simpl in *; unfold alive; f_equal; auto).
+  subst w1. specialize (IH C2).
+  destruct (http_run G (alive s) cs) as [w2 e2]. simpl in *. destruct IH as [-> V2].
+  split; auto. rewrite vis_app, A6, V2, U0. unfold stream_of. simpl. rewrite map_app. reflexivity.
 Qed.
